@@ -133,6 +133,19 @@ def run(ctx):
         shape = rng.choice([(), (3,), (2, 3), (2, 2, 2), (5,), (8, 5), (1,), (4, 1), (40,)])
         size = int(np.prod(shape)) if shape else 1
         x = np.array([rng.uniform(0.3, 3) for _ in range(size)]).reshape(shape)
+        # the same logical array in another memory layout (Fortran order, a transposed view, a strided view): the layout is not
+        # part of the value of x
+        layout = 'C'
+        if len(shape) >= 2 and rng.random() < 0.5:
+            layout = rng.choice(['F', 'T', 'strided'])
+            if layout == 'F':
+                x = np.asfortranarray(x)
+            elif layout == 'T':
+                x = np.ascontiguousarray(np.transpose(x)).transpose()
+            else:
+                big = np.zeros((2 * shape[0],) + tuple(shape[1:]))
+                big[::2] = x
+                x = big[::2]
         f = rng.choice([f_rational, np.exp, np.log, lambda t: t * t / (1 + t)])
         ctx.tried((m, n, order, tuple(x.ravel()[:3]), shape) if size > 1 else None)
         D = nd.Derivative(f, n=n, method=m, order=order, full_output=True)
@@ -146,7 +159,8 @@ def run(ctx):
                     x2[j] = rng.uniform(0.3, 3) if rng.random() < 0.9 else -1.0
             b, ib = D(x2.reshape(shape))
             s, is_ = D(float(x.ravel()[k]))
-        rep = dict(method=m, n=n, order=order, shape=list(shape), x=x.tolist(), kept=k)
+        rep = dict(method=m, n=n, order=order, shape=list(shape), x=x.tolist(), kept=k, memory_layout=layout)
+        ctx.keep('Derivative', a, **rep)
         if np.shape(a) != shape:
             ctx.violation('result shape differs from the shape of x', got=list(np.shape(a)), **rep)
             continue
